@@ -273,7 +273,15 @@ pub fn mutate(f: &ZoneFile, kind: u8, a: u32, b: u32) -> Option<Vec<u8>> {
         }
         7 => { if timecnt == 0 { return None; } bytes[l.idx() + a as usize % timecnt] = (typecnt + b as usize % (256 - typecnt)) as u8; }
         8 => { if charcnt >= 256 { return None; } bytes[l.types() + (a as usize % typecnt) * 6 + 5] = (charcnt + b as usize % (256 - charcnt)) as u8; }
-        9 => { let last = l.chars() + charcnt - 1; bytes[last] = b'A'; bytes[l.types() + (a as usize % typecnt) * 6 + 5] = (charcnt - 1) as u8; }
+        9 => {
+            // the last designation loses its terminator; the index points at it (one letter, or a
+            // whole plausible name of three or four characters)
+            let last = l.chars() + charcnt - 1;
+            let n = [1usize, 3, 4][b as usize % 3].min(charcnt);
+            if charcnt - n >= 256 { return None; }
+            for (k, c) in b"ECTX"[..n].iter().enumerate() { bytes[last + 1 - n + k] = *c; }
+            bytes[l.types() + (a as usize % typecnt) * 6 + 5] = (charcnt - n) as u8;
+        }
         10 => { bytes[l.types() + (a as usize % typecnt) * 6 + 4] = 2 + (b % 254) as u8; }
         11 => {
             let k = a as usize % typecnt;
@@ -424,10 +432,10 @@ impl SubCheck for BadTz {
         "tz_string_defects"
     }
     fn rule(&self) -> &'static str {
-        "case = (valid rule, defect kind, selector): a TZ string with one grammar defect by construction (name shorter than 3 letters, missing offset, hour 25, minute/second 60, missing end rule, month 13, week 0/6, weekday 7, J0, J366, day 366, trailing text, missing comma, time of 25 h) must be rejected with an error and without panic; every case non-trivial"
+        "case = (valid rule, defect kind, selector): a TZ string with one grammar defect by construction (name shorter than 3 letters, missing offset, hour 25, minute/second 60, missing end rule, month 13, week 0/6, weekday 7, J0, J366, day 366, trailing text, missing comma, time of 25 h, signed rule time) must be rejected with an error and without panic; every case non-trivial"
     }
     fn strategy(&self) -> Option<BoxedStrategy<Self::Case>> {
-        Some((alt_rule(false), 0u8..15, any::<u32>()).boxed())
+        Some((alt_rule(false), 0u8..16, any::<u32>()).boxed())
     }
     fn check(&self, (rule, kind, sel): &Self::Case, obs: &mut Obs) -> Result<(), String> {
         obs.nt("defect");
@@ -452,7 +460,9 @@ impl SubCheck for BadTz {
             11 => format!("{s0}{so}{d0},{a},{}", 366 + sel % 100),
             12 => format!("{s0}{so}{d0},{a},{b}{}", [",", "x", "/", ",M1.1.1", "/2/3", " x"][*sel as usize % 6]),
             13 => format!("{s0}{so}{d0} {a},{b}"),
-            _ => format!("{s0}{so}{d0},{a}/25,{b}"),
+            14 => format!("{s0}{so}{d0},{a}/25,{b}"),
+            // POSIX rule times are unsigned (a sign is an extension of version-3 footers only)
+            _ => format!("{s0}{so}{d0},{a}/{},{b}{}", ["+2", "+0", "-0", "-0:00:00", "+24", "2", "2"][*sel as usize % 7], ["", "", "", "", "", "/+3", "/-0"][*sel as usize % 7]),
         };
         if let Ok(z) = parse_tz(&s)? {
             let d = hook::dump(&z);
